@@ -64,7 +64,13 @@ ASSUMPTIONS = ["numpy, pandas, copy.deepcopy and pickle are trusted to reproduce
 BUDGET = {"quick": 30, "thorough": 520}
 CASE_TIMEOUT = 1000
 FLOORS = {
-    "quick": {"evaluations": 1, "distinct_nontrivial": 1},
+    # measured on the unchanged tree (seed 0): 78177 cases, 84267 distinct, determinism_checks 479864,
+    # xproc_comparisons 57600, pairs_compared 69932, equal_pairs_compared 4795, diff_mechanisms 985
+    "quick": {"evaluations": 35000, "distinct_nontrivial": 38000,
+              "counters": {"determinism_checks": 200000, "xproc_comparisons": 25000, "xproc_batches": 14,
+                           "pairs_compared": 30000, "equal_pairs_compared": 2000, "tokenize_calls": 300000},
+              "sets": {"diff_mechanisms": 400, "value_features": 25, "hash_probe_values": 10},
+              "max_skipped_fraction": 0.05},
     "thorough": {"evaluations": 1, "distinct_nontrivial": 1},
 }
 EXHAUSTIVE_SPACE = "all unordered pairs of the fixed atom list vf.gen.c12_values.atoms() (collision facet only)"
@@ -119,6 +125,8 @@ PENDING = {
     "nondeterminism:equal-values:frozenset-insertion-order": "frozenset([0, 8]) and frozenset([8, 0]) get different tokens",
     "nondeterminism:deepcopy:frozenset&pickle-bytes-differ": "a frozenset with colliding hashes and its deep copy get different tokens",
     "nondeterminism:pickle-roundtrip:frozenset&pickle-bytes-differ": "a frozenset with colliding hashes and its pickle round trip get different tokens",
+    "nondeterminism:rebuild-equal-value:frozenset&pickle-bytes-differ":
+        "frozenset({nan, True}) rebuilt with another NaN object (identity hash) iterates, pickles and tokenizes differently",
     # 9. 0-d object arrays: (x.item(), dtype) goes through str()
     "collision:0-d-object-array:elements-with-equal-str": "0-d object arrays holding large arrays that differ in the middle share a token (abbreviated repr)",
     # 10. object arrays through _normalize_pickle: pickle bytes encode object identity / layout of nested arrays
